@@ -12,6 +12,7 @@ could have continued costs one preemption).
 enabled threads are listed in canonical order: the running thread first if it is still enabled,
 then ascending task index; choice 0 is therefore "let the current thread continue".
 """
+import sys
 import threading
 
 _local = threading.local()
@@ -31,7 +32,11 @@ def point(label):
 class Baton:
     """One execution under a prescribed prefix of choices (default choice 0 afterwards)."""
 
-    def __init__(self, prefix=()):
+    def __init__(self, prefix=(), trace_files=(), trace_funcs=None):
+        """trace_files: path suffixes of source files in which EVERY executed line is a scheduling point (sys.settrace in the
+        task threads): line-granular interleaving of the code under test's own orchestration, no hand-placed points needed."""
+        self.trace_files = tuple(trace_files)
+        self.trace_funcs = None if trace_funcs is None else set(trace_funcs)   # restrict line tracing to these function names
         self.prefix = list(prefix)
         self.trace = []      # one dict per decision: enabled, choice, cur_enabled
         self.labels = []     # (task index, label) in execution order
@@ -53,9 +58,27 @@ class Baton:
         threads = {}
         failure = {}
 
+        def make_tracer(k):
+            files = self.trace_files
+
+            def local(frame, event, arg):
+                if event == "line":
+                    self._yield(k, "%s:%d" % (frame.f_code.co_filename.rsplit("/", 1)[-1], frame.f_lineno))
+                return local
+
+            def tracer(frame, event, arg):
+                if event == "call" and frame.f_code.co_filename.endswith(files) and (
+                        self.trace_funcs is None or frame.f_code.co_name in self.trace_funcs):
+                    return local
+                return None
+
+            return tracer
+
         def body(k):
             sems[k].acquire()
             _local.ctx = (self, k)
+            if self.trace_files:
+                sys.settrace(make_tracer(k))
             try:
                 t = graph[k]
                 if callable(t):
@@ -66,6 +89,8 @@ class Baton:
                 failure[k] = exc
                 results[k] = exc
             finally:
+                if self.trace_files:
+                    sys.settrace(None)
                 _local.ctx = None
                 state[k] = "done"
                 ctrl.release()
